@@ -213,6 +213,7 @@ func (y *sys) lockSched() bool {
 	for time.Since(t0) < deadline {
 		select {
 		case <-got:
+			y.holding = true
 			return true
 		case <-time.After(grace):
 		}
@@ -310,3 +311,8 @@ func apiLane14(f func()) { f() }
 
 //go:noinline
 func apiLane15(f func()) { f() }
+
+func (y *sys) unlockSched() {
+	y.holding = false
+	y.smu.Unlock()
+}
